@@ -47,9 +47,11 @@ def run(tier, seed):
         Z = [rng.choice([2.0, 2.0, 2.0, rng.random() * 0.2, rng.random()]) for _ in range(n + 5)]
         if cls == "fssh" and it % 2 == 0:
             Z = [rng.choice([2.0, rng.random() * 0.05, rng.random() * 0.01]) for _ in range(n + 5)]      # hop-rich: restarts right after hops, active state not the most populated one
+            for j_ in rng.sample(range(1, max(2, (2 * n) // 3)), min(8, max(1, (2 * n) // 3 - 1))):
+                Z[j_] = 0.0                                                                                # threshold zero: an attempt whenever any probability is positive
         lim = dict(max_steps=n) if rule == "max_steps" else dict(max_time=t0 + (dt * n if rule == "max_time" else dt * (n - 0.4)), max_steps=-1)
         zkw = (lambda zz: dict(zeta_list=list(zz))) if cls == "fssh" else (lambda zz: {})
-        args = (x0, p0) if cls == "md" else (x0, p0, 0)
+        args = (x0, p0) if cls == "md" else (x0, p0, (1 if (cls == "fssh" and it % 2 == 0) else 0))      # hop-rich runs start on the upper of the two lowest states (downward hops are always accepted)
         full = C(model, *args, dt=dt, t0=t0, **lim, **zkw(Z)).simulate()
         nfull = len(full)
         ks = [1, 2, nfull - 2] + [rng.randint(1, nfull - 2) for _ in range(4 if tier == "quick" else 12)]
